@@ -20,6 +20,7 @@ import (
 	"runtime"
 	"strings"
 	"sync"
+	"sync/atomic"
 
 	"verif/lib/aspenkit"
 	"verif/lib/harness"
@@ -74,6 +75,9 @@ type c06Checker struct {
 }
 
 func (k *c06Checker) check(t *aspenkit.ClusterTrace, cp *aspenkit.Checkpoint, report bool) bool {
+	if cp.NotQuiescent {
+		return true // the statement speaks about quiesced gossip only
+	}
 	ok := true
 	cl := t.Cluster
 	viol := func(node int, key, sig, why string, diag map[string]any) {
@@ -167,12 +171,13 @@ func (k *c06Checker) classify(t *aspenkit.ClusterTrace, cp *aspenkit.Checkpoint,
 
 // scenarioRoots: the inferred mechanisms a directed schedule is expected to produce.
 var scenarioRoots = map[string][]string{
-	"late-feedback-silences-newer-op":                  {"late-feedback-silences-newer-op"},
-	"restart-recovery-skips-op-below-local-high-water": {"restart-recovery-skips-op-below-local-high-water"},
-	"restart-forgets-unpropagated-own-write":           {"restart-forgets-unpropagated-own-write"},
-	"stale-lease-commit-overwrites-newer-op":           {"node-holds-own-led-op-against-other-leaseholder"},
-	"partition-heals-after-op-recovered":               {"gossip-recovered-everywhere-before-reaching-node"},
-	"late-feedback-silences-newer-op:fault-free":       {"late-feedback-silences-newer-op"},
+	"late-feedback-silences-newer-op":                   {"late-feedback-silences-newer-op"},
+	"restart-recovery-skips-op-below-local-high-water":  {"restart-recovery-skips-op-below-local-high-water"},
+	"restart-forgets-unpropagated-own-write":            {"restart-forgets-unpropagated-own-write"},
+	"restart-recovery-misses-op-at-or-above-high-water": {"restart-recovery-misses-op-at-or-above-high-water"},
+	"stale-lease-commit-overwrites-newer-op":            {"node-holds-own-led-op-against-other-leaseholder"},
+	"partition-heals-after-op-recovered":                {"gossip-recovered-everywhere-before-reaching-node"},
+	"late-feedback-silences-newer-op:fault-free":        {"late-feedback-silences-newer-op"},
 	// with only the writer holding the op, "recovered everywhere" and "silenced" both
 	// mean the same thing: the writer stopped offering the op before it knew the new node
 	"write-during-join-never-reaches-new-node:fault-free": {"gossip-recovered-everywhere-before-reaching-node", "late-feedback-silences-newer-op"},
@@ -209,14 +214,30 @@ func (k *c06Checker) infer(t *aspenkit.ClusterTrace, cp *aspenkit.Checkpoint, ks
 		}
 	}
 	diag["holders"] = holders
+	diag["times_latest_handed_to_stale_node"] = cl.Net.Received(sn.Addr, ks.Name, rs.Version)
 	if sn.Epoch > 0 && len(sn.HighWater) > 0 {
 		hw := sn.HighWater[len(sn.HighWater)-1]
 		diag["stale_node_high_water_at_restart"] = hw
 		diag["latest_version"] = rs.Version
-		if rs.Version < hw && cl.Net.Gossiped(sn.Addr, ks.Name, rs.Version) == 0 {
+		// was the missing write issued while the stale node was stopped?
+		whileDown := false
+		for _, w := range t.Hist[ks.Name] {
+			if matchesWrite(rs, w) {
+				for _, dr := range t.DownRounds[stale] {
+					if dr == w.Round {
+						whileDown = true
+					}
+				}
+			}
+		}
+		diag["latest_written_while_stale_node_was_down"] = whileDown
+		if whileDown && rs.Version < hw {
 			// the node restarted with a local high-water mark above the version it is
 			// missing, i.e. its start-up recovery asked its peers to skip it
 			return "restart-recovery-skips-op-below-local-high-water", diag
+		}
+		if whileDown {
+			return "restart-recovery-misses-op-at-or-above-high-water", diag
 		}
 	}
 	if cl.Nodes[ref].Epoch > 0 && cl.Net.FeedbackDelivered(cl.Nodes[ref].Addr, ks.Name, rs.Version) <= recoveryThreshold+1 {
@@ -284,7 +305,16 @@ func countNet(h *harness.H, t *aspenkit.ClusterTrace, prefix string) {
 	}
 }
 
+// noQuiesce counts cases whose gossip never quiesced. When that keeps happening the code
+// under test gossips forever (e.g. it re-accepts what it already has); the remaining cases
+// would each only burn the watchdog, so they are skipped and counted as inconclusive.
+var noQuiesce atomic.Int64
+
 func clusterCase(h *harness.H, c int) {
+	if noQuiesce.Load() >= 6 {
+		h.Inconclusive("cluster:skipped-after-repeated-no-quiescence")
+		return
+	}
 	ctx := context.Background()
 	r := h.Rand("cluster", c)
 	h.Eval()
@@ -297,6 +327,9 @@ func clusterCase(h *harness.H, c int) {
 		return
 	}
 	if t.Inconclusive != "" {
+		if strings.HasPrefix(t.Inconclusive, "no-quiescence") {
+			noQuiesce.Add(1)
+		}
 		h.Inconclusive("cluster:" + strings.SplitN(t.Inconclusive, ":", 2)[0])
 		fmt.Printf("NOTE: cluster case %d inconclusive: %s\n", c, t.Inconclusive)
 	}
